@@ -447,7 +447,8 @@ class Parser:
     def _rvalue_expr(self, dest, code_gen):
         if not ExpressionParser(self).expression():
             return False
-        code_gen.pop(dest)
+        if dest is not OpCode.PUSH:
+            code_gen.pop(dest)
         return True
 
     def _at_rvalue(self, include_reg=True) -> bool:
